@@ -82,6 +82,7 @@ def c08(rep, tier):
     r_scope.run_scopetype(p, rep, keys=[k for k in r_scope.SCOPE_SPEC if "Render " in k or "Include " in k or "render_tag" in k or "include_tag" in k])
     r_scope.run_rtcalls(p, rep, only=["liquid_lib::stdlib::tags::include_tag::Include", "liquid_lib::stdlib::tags::render_tag::Render"])
     r_scope.run_argeval(p, rep)
+    r_scope.run_args_loud(p, rep)
     r_pair.check_loop_reset(p, rep, "<liquid_lib::stdlib::tags::render_tag::Render as liquid_core::runtime::renderable::Renderable>::render_to", "Render::render_to(for)")
     r_partials.run_loud(p, rep)
     # the *tag* fails when its partial does not parse: a broken partial is kept as a per-name Result, building the parser never fails on it
@@ -105,6 +106,7 @@ def c04(rep, tier):
     r_fwd.run_lookup_keying(p, rep)
     r_scope.run_rtcalls(p, rep)
     r_scope.run_argeval(p, rep)
+    r_scope.run_args_loud(p, rep)
     r_verbatim.param_unused(p, rep, "<liquid_lib::stdlib::blocks::capture_block::Capture as liquid_core::runtime::renderable::Renderable>::render_to", 2)
     r_verbatim.capture_binds_text(p, rep, "<liquid_lib::stdlib::blocks::capture_block::Capture as liquid_core::runtime::renderable::Renderable>::render_to")
     r_utf8sink.run_unsafe(p, rep)
